@@ -163,6 +163,11 @@ def discharge(ob, timeout_s=10, use_cvc5=True, want_model=True):
             return OResult(ob.name, ob.kind, ob.func, "discharged", "cvc5", time.time() - t0)
         if r2 == "sat":
             return OResult(ob.name, ob.kind, ob.func, "failed", "cvc5", time.time() - t0, model=None, smt2=smt2)
+        if z3.is_false(ob.goal):
+            # the contract could not even recognise the required structure on this path (goal is literally false) and
+            # the path could not be refuted: the obligation cannot be discharged on this tree
+            return OResult(ob.name, ob.kind, ob.func, "failed", "z3+cvc5", time.time() - t0, smt2=smt2,
+                           note="structurally false goal on a path that was not refuted")
         return OResult(ob.name, ob.kind, ob.func, "undecided", "z3+cvc5", time.time() - t0, smt2=smt2,
                        note="unknown on both solvers")
     if r == "sat":
